@@ -26,6 +26,9 @@ import (
 var hostile = []string{
 	"\"", "\\", "\",\"type\":\"Delete", "\"}", "\\\"", "a\"b", "a\\", "\\\\\"", "\n", "\r\n", "\t", "\x00", "\x01", "\x1f", "\x7f",
 	"{\"a\":1}", "[1,2]", "</script>", " ", "é", "😀", "\\u0022", "\\n", "\",\"id\":\"https://evil.example/", "x\",\"x\":\"y",
+	// runes the writer treats specially although they are valid UTF-8: the line and paragraph separators it
+	// escapes, and a genuine replacement character (which decoding functions also return for broken input)
+	"\u2028", "a\u2029b", "\ufffd", "x\ufffdy", "\ufffc\ufffe",
 	"\xff", "\xc3", "a\x80b",
 }
 
@@ -262,7 +265,16 @@ func checkField(path, term, kind string, v interface{}, doc map[string]interface
 			}
 			return ""
 		}
+		keyed := 0
+		for _, e := range l {
+			if p := asList(e); p[0].(string) != "" && p[1].(string) != "" {
+				keyed++
+			}
+		}
 		x, ok := get(term + "Map")
+		if !ok && keyed == 0 {
+			return "" // no entry has both a reference and a text: nothing to write
+		}
 		if !ok {
 			return fmt.Sprintf("%s: no member %q", path, term+"Map")
 		}
@@ -275,6 +287,9 @@ func checkField(path, term, kind string, v interface{}, doc map[string]interface
 		var order []string
 		for _, e := range l {
 			p := asList(e)
+			if p[0].(string) == "" {
+				continue // an entry whose stored reference is empty has no key to go under: the writer leaves it out of a map
+			}
 			tag := strings.ToValidUTF8(p[0].(string), "\ufffd")
 			if _, ok := first[tag]; !ok {
 				first[tag] = p[1].(string)
@@ -550,6 +565,12 @@ func init() {
 			{[]interface{}{"en", "one"}, []interface{}{"en", "two"}},
 			{[]interface{}{"en", "one"}, []interface{}{"fr", "deux"}, []interface{}{"en", "three"}},
 			{[]interface{}{"-", "one"}, []interface{}{"-", "two"}},
+			// the stored reference may be empty, the marker "-", or a language: entries without a reference next to
+			// entries with the marker, and next to a language
+			{[]interface{}{"", "one"}, []interface{}{"-", "two"}},
+			{[]interface{}{"-", "one"}, []interface{}{"", "two"}},
+			{[]interface{}{"", "one"}, []interface{}{"en", "two"}},
+			{[]interface{}{"", "one"}, []interface{}{"", "two"}},
 			{[]interface{}{"fr", "a"}, []interface{}{"fr", "b"}, []interface{}{"fr", "c"}},
 		} {
 			for _, fld := range []string{"Name", "Summary", "Content"} {
